@@ -1500,6 +1500,31 @@ dependencies of the node, so the last message wins (`settledBut_drainC`) — and
 again (with a dynamic cell) by a load that misses, which sends a NEW registration after the stale one.
 `clear` itself needs no hypothesis. -/
 
+/-- the conclusion of the history theorems, for every step predicate `P` whose steps keep the invariant
+`SInvC` and whose reloader steps satisfy `PassOK` when they run a pass -/
+theorem C05_history_conclusion {P : HOp → St × RSt → Prop} (env : Env) (hS : env.Steady) (fuel : Nat)
+    (hI : ∀ x op, SInvC env fuel x → P op x → SInvC env fuel (hstep fuel (env, op) x))
+    (hpass : ∀ x op, op.isReloader = true → P op x →
+      op.runsPass x.2 = true → (prePass op x).2.toReload ≠ [] → PassOK env fuel (prePass op x))
+    (h : List (Env × HOp)) (hh : HistP P env fuel h ({}, {})) :
+    ∀ h1 op h2, h = h1 ++ (env, op) :: h2 → op.isReloader = true →
+      Settled env fuel (runH fuel (h1 ++ [(env, op)]) ({}, {})).1 (runH fuel (h1 ++ [(env, op)]) ({}, {})).2.graph ∧
+      GraphOK (runH fuel (h1 ++ [(env, op)]) ({}, {})).2.graph ∧
+      (runH fuel (h1 ++ [(env, op)]) ({}, {})).1.out = [] ∧
+      (runH fuel (h1 ++ [(env, op)]) ({}, {})).2.dead = false ∧
+      ((runH fuel (h1 ++ [(env, op)]) ({}, {})).2.static_ = true →
+        (runH fuel (h1 ++ [(env, op)]) ({}, {})).2.toReload = []) ∧
+      (op = .enhance → (runH fuel (h1 ++ [(env, op)]) ({}, {})).2.static_ = true) := by
+  intro h1 op h2 e hop
+  obtain ⟨j1, j2, j3, j4⟩ := (histP_settled hS hI hpass hh (SInvC.init env fuel)).2 h1 op h2 e hop
+  refine ⟨j1, C05_history_keeps_graphOK fuel _ _ graphOK_nil, j2, j3.live, j3.idle, ?_⟩
+  intro eo
+  subst eo
+  rw [runH_append]
+  generalize runH fuel h1 ({}, {}) = x1 at j4
+  obtain ⟨s1, r1⟩ := x1
+  exact enhance_static_after env fuel s1 r1 j4.live
+
 /-- **Histories with `clear`** (partial): `C05_static_history_partial` extended with `.api .clear` steps.
 From the empty cache and an empty reloader, under ONE environment without fault plan; the history is
 any list of API operations, `hot_reload()`s, batches of events and `enhance_hot_reloading`s such that
@@ -1526,16 +1551,8 @@ theorem C05_history_with_clear_partial (env : Env) (hS : env.Steady) (fuel : Nat
       (runH fuel (h1 ++ [(env, op)]) ({}, {})).2.dead = false ∧
       ((runH fuel (h1 ++ [(env, op)]) ({}, {})).2.static_ = true →
         (runH fuel (h1 ++ [(env, op)]) ({}, {})).2.toReload = []) ∧
-      (op = .enhance → (runH fuel (h1 ++ [(env, op)]) ({}, {})).2.static_ = true) := by
-  intro h1 op h2 e hop
-  obtain ⟨j1, j2, j3, j4⟩ := (histC_settled hS hh (SInvC.init env fuel)).2 h1 op h2 e hop
-  refine ⟨j1, C05_history_keeps_graphOK fuel _ _ graphOK_nil, j2, j3.live, j3.idle, ?_⟩
-  intro eo
-  subst eo
-  rw [runH_append]
-  generalize runH fuel h1 ({}, {}) = x1 at j4
-  obtain ⟨s1, r1⟩ := x1
-  exact enhance_static_after env fuel s1 r1 j4.live
+      (op = .enhance → (runH fuel (h1 ++ [(env, op)]) ({}, {})).2.static_ = true) :=
+  C05_history_conclusion env hS fuel (fun _ op hx hok => hx.step hS op hok) (fun _ _ hop hok => hok.pass hop) h hh
 
 /-- `C05_history_with_clear_partial` contains `C05_static_history_partial` (hence `C05_history_settled_partial`) -/
 theorem C05_history_with_clear_extends (env : Env) (fuel : Nat) (h : List (Env × HOp)) (x : St × RSt)
@@ -1605,13 +1622,16 @@ theorem C05_clear_old_hypothesis_too_strong :
   ⟨fun h => absurd (noPendingKeyFilled_check_of h.noFillPending) (by decide), loadOKC_of_check (by decide)⟩
 
 /-- loaders whose dependency set depends on the cache: `x` returns `0`; `r` probes `x` with `get_cached`:
-absent → `1`; present → reads `f.s` and returns `2` -/
+absent → `1`; present → reads `f.s` and returns `2`; `w` loads `x` and returns `3`; `o` calls `load_owned x`
+and returns `4` -/
 def lwProg (id : String) : Prog :=
   if id = "x" then .ret (.int 0)
   else if id = "r" then .getCached ⟨0, "x"⟩ fun r =>
     match r with
     | none => .ret (.int 1)
     | some _ => .read "f" "s" fun _ => .ret (.int 2)
+  else if id = "w" then .load ⟨0, "x"⟩ fun _ => .ret (.int 3)
+  else if id = "o" then .loadOwned ⟨0, "x"⟩ fun _ => .ret (.int 4)
   else .panic
 
 def lwEnv : Env :=
@@ -1705,5 +1725,187 @@ theorem C05_remove_pending_breaks_settled :
       (runH 10 [(exEnv [1, 0] [10], .api (.load kb))] ({}, {})) :=
     .cons _ _ _ (Or.inr hdep) (.cons _ _ _ (StepOK.of_idle rfl (by decide)).toC (.nil _))
   exact hbad ((histC_settled (exEnv_steady _ _) hh hinv).2 [(exEnv [1, 0] [10], .api (.remove ke))] .hotReload [] rfl rfl).1
+
+/-! ## Histories with `load_owned` (`Lemmas/HistMore.lean`)
+
+`load_owned(key)` from the API runs the loader of `key` under its own frame and registers `key` with what
+the frame recorded, but caches nothing for `key` (`step_loadOwned_facts`): the graph gets a typed node for
+a key that is not cached — skipped by `reload`, and `Settled` does not speak of it (`MsgGoodIf` holds
+vacuously). The assets the owned load cached ON THE WAY are registered by good messages as for a load
+(`clean_out` on the body). -/
+
+/-- **Histories with `clear` and `load_owned`** (partial): `C05_history_with_clear_partial` extended with
+`.api (.loadOwned key)` steps. Every step satisfies `StepOKO` in the state it starts from: `StepOKC`
+(see `C05_history_with_clear_partial`), and a `load_owned` from the API satisfies `LoadOwnedOK`:
+* `clean` — `CleanLoadOwned`: the type of `key` is hot-reloaded (and the cache has a reloader), and the
+  body of the loader runs clean (`cleanRun` relative to the cache the call ends in: nested `load`s, misses
+  included, recursively; no absorbed failure; no `get_cached` probe of a key that is cached before the call
+  returns) — the hypothesis `CleanLoad` of a load, on the body;
+* `agrees` — `OwnedAgrees`: IF `key` is cached (dynamic cell) when the call starts, the call returns the
+  cached value. Necessary for the step (`C05_load_owned_false_disagrees`); vacuous when `key` is not cached;
+* `noFill`, `noFillLive` — `NoProbedKeyFilled`, `NoLivePendingKeyFilled` for the keys the owned load caches
+  on the way; necessary (`C05_load_owned_false_fill`).
+No hypothesis on the result (value, error, panic, exhausted fuel).
+NOT covered: `load_owned` NESTED in a loader. That is not a gap of the proof: `hitRun` rejects `.loadOwned`,
+so an asset whose loader takes that path is never `Settled`, whatever the history
+(`C05_nested_load_owned_never_settled`, `C05_nested_load_owned_example`); `cleanRun` rejects it accordingly.
+
+Conclusion: the one of `C05_static_history_partial`, after EVERY reloader step. -/
+theorem C05_history_with_load_owned_partial (env : Env) (hS : env.Steady) (fuel : Nat) (h : List (Env × HOp))
+    (hh : HistP (StepOKO env fuel) env fuel h ({}, {})) :
+    ∀ h1 op h2, h = h1 ++ (env, op) :: h2 → op.isReloader = true →
+      Settled env fuel (runH fuel (h1 ++ [(env, op)]) ({}, {})).1 (runH fuel (h1 ++ [(env, op)]) ({}, {})).2.graph ∧
+      GraphOK (runH fuel (h1 ++ [(env, op)]) ({}, {})).2.graph ∧
+      (runH fuel (h1 ++ [(env, op)]) ({}, {})).1.out = [] ∧
+      (runH fuel (h1 ++ [(env, op)]) ({}, {})).2.dead = false ∧
+      ((runH fuel (h1 ++ [(env, op)]) ({}, {})).2.static_ = true →
+        (runH fuel (h1 ++ [(env, op)]) ({}, {})).2.toReload = []) ∧
+      (op = .enhance → (runH fuel (h1 ++ [(env, op)]) ({}, {})).2.static_ = true) :=
+  C05_history_conclusion env hS fuel (fun _ op hx hok => hx.stepO hS op hok) (fun _ _ hop hok => hok.pass hop) h hh
+
+/-- `C05_history_with_load_owned_partial` contains `C05_history_with_clear_partial` -/
+theorem C05_history_with_load_owned_extends (env : Env) (fuel : Nat) (h : List (Env × HOp)) (x : St × RSt)
+    (hh : HistP (StepOKC env fuel) env fuel h x) : HistP (StepOKO env fuel) env fuel h x :=
+  hh.mono (fun _ _ => StepOKC.toO)
+
+/-- **What `load_owned` from the API does to the cache and the channel** (hot type, reloader): nothing is
+cached for `key` by the call itself — the cache is the one the loader body ended in —, and `key` is
+registered with what the body recorded when the body returned a value. -/
+theorem C05_load_owned_registers_uncached (env : Env) (f : Nat) (s : St) (key : Key)
+    (hb : recordsAsset (env.types key.ty).hot env.hasReloader = true) :
+    (∀ k, (step env (f + 1) s (.loadOwned key)).1.lookup k = (ownedBody env (f + 1) s key).1.lookup k) ∧
+    (step env (f + 1) s (.loadOwned key)).1.out = (ownedBody env (f + 1) s key).1.out ++
+      (match (ownedBody env (f + 1) s key).2 with
+       | .ok _ => [.addAsset key (ownedBody env (f + 1) s key).1.top]
+       | _ => []) :=
+  step_loadOwned_facts env f s key hb
+
+/-! ### Non-vacuity -/
+
+/-- `load_owned b` (loads and caches `e` on the way; registers `b`, which is NOT cached), `hot_reload()`,
+`load b`, `load_owned b` (now `b` is cached: the owned load returns the cached value), `clear`,
+`load_owned b` again, `hot_reload()` -/
+def exOwnedHistory : List (Env × HOp) :=
+  [(exEnv [1, 0] [10], .api (.loadOwned kb)), (exEnv [1, 0] [10], .hotReload),
+   (exEnv [1, 0] [10], .api (.load kb)), (exEnv [1, 0] [10], .api (.loadOwned kb)),
+   (exEnv [1, 0] [10], .api .clear), (exEnv [1, 0] [10], .api (.loadOwned kb)), (exEnv [1, 0] [10], .hotReload)]
+
+theorem exOwnedHistory_ok : HistP (StepOKO (exEnv [1, 0] [10]) 10) (exEnv [1, 0] [10]) 10 exOwnedHistory ({}, {}) :=
+  .cons _ _ _ (StepOKO.loadOwned (loadOwnedOK_of_check (by decide)))
+    (.cons _ _ _ (StepOK.of_idle rfl (by decide)).toC.toO
+      (.cons _ _ _ (StepOKC.load (loadOKC_of_check (by decide))).toO
+        (.cons _ _ _ (StepOKO.loadOwned (loadOwnedOK_of_check (by decide)))
+          (.cons _ _ _ StepOKC.clear.toO
+            (.cons _ _ _ (StepOKO.loadOwned (loadOwnedOK_of_check (by decide)))
+              (.cons _ _ _ (StepOK.of_idle rfl (by decide)).toC.toO (.nil _)))))))
+
+/-- **Non-vacuity** of `C05_history_with_load_owned_partial`: settled after both `hot_reload()`s -/
+example :
+    Settled (exEnv [1, 0] [10]) 10 (runH 10 (exOwnedHistory.take 2) ({}, {})).1 (runH 10 (exOwnedHistory.take 2) ({}, {})).2.graph ∧
+    Settled (exEnv [1, 0] [10]) 10 (runH 10 exOwnedHistory ({}, {})).1 (runH 10 exOwnedHistory ({}, {})).2.graph :=
+  ⟨(C05_history_with_load_owned_partial (exEnv [1, 0] [10]) (exEnv_steady _ _) 10 exOwnedHistory exOwnedHistory_ok
+      [(exEnv [1, 0] [10], .api (.loadOwned kb))] .hotReload _ rfl rfl).1,
+   (C05_history_with_load_owned_partial (exEnv [1, 0] [10]) (exEnv_steady _ _) 10 exOwnedHistory exOwnedHistory_ok
+      [(exEnv [1, 0] [10], .api (.loadOwned kb)), (exEnv [1, 0] [10], .hotReload),
+       (exEnv [1, 0] [10], .api (.load kb)), (exEnv [1, 0] [10], .api (.loadOwned kb)),
+       (exEnv [1, 0] [10], .api .clear), (exEnv [1, 0] [10], .api (.loadOwned kb))] .hotReload [] rfl rfl).1⟩
+
+/-- what happens in that history: the first `load_owned b` returns `11`, caches `e` but not `b`, and sends
+the registrations of `e` and of `b`; after the `hot_reload()` the graph has a typed node for the uncached `b`;
+the second `load_owned b` (with `b` cached) returns the cached `11` and registers `b` again -/
+example :
+    (step (exEnv [1, 0] [10]) 10 {} (.loadOwned kb)).2 = .value (.int 11) ∧
+    (runH 10 (exOwnedHistory.take 1) ({}, {})).1.lookup kb = none ∧
+    (runH 10 (exOwnedHistory.take 1) ({}, {})).1.lookup ke = some ⟨.int 10, true, 0, false, 0⟩ ∧
+    (runH 10 (exOwnedHistory.take 1) ({}, {})).1.out =
+      [.addAsset ke [.file "e" "s"], .addAsset kb [.file "b" "s", .asset ke]] ∧
+    ((runH 10 (exOwnedHistory.take 2) ({}, {})).2.graph.get (.asset kb)).map (·.typed) = some true ∧
+    (runH 10 (exOwnedHistory.take 2) ({}, {})).1.lookup kb = none ∧
+    (step (exEnv [1, 0] [10]) 10 (runH 10 (exOwnedHistory.take 3) ({}, {})).1 (.loadOwned kb)).2 = .value (.int 11) ∧
+    (runH 10 (exOwnedHistory.take 4) ({}, {})).1.out.length = 2 := by decide
+
+/-! ### The hypotheses on a `load_owned` are necessary; nested `load_owned` -/
+
+/-- **`OwnedAgrees` is necessary.** A state that satisfies the invariant (nothing registered, channel
+drained — `Settled` holds vacuously) in which `x` is cached with `99` although its loader returns `0`.
+`load_owned x`: a clean owned load, nothing is filled — it returns `0` and REGISTERS `x`. After
+`hot_reload()` `x` is registered, cached, and holds `99` although re-evaluating its loader returns `0`. -/
+theorem C05_load_owned_false_disagrees :
+    ∃ (env : Env) (fuel : Nat) (x : St × RSt) (key : Key),
+      env.Steady ∧ SInvC env fuel x ∧ CleanLoadOwned env fuel x.1 key ∧
+      NoProbedKeyFilled x.1 (step env fuel x.1 (.loadOwned key)).1 x.2.graph ∧
+      NoLivePendingKeyFilled x.1 (step env fuel x.1 (.loadOwned key)).1 ∧
+      ¬ OwnedAgrees env fuel x.1 key ∧
+      StaleAt env fuel (runH fuel [(env, .api (.loadOwned key)), (env, .hotReload)] x) key ∧
+      ¬ Settled env fuel (runH fuel [(env, .api (.loadOwned key)), (env, .hotReload)] x).1
+          (runH fuel [(env, .api (.loadOwned key)), (env, .hotReload)] x).2.graph := by
+  have hinv : SInvC cxEnv 10 ({ map := [(⟨0, "x"⟩, ⟨.int 99, true, 0, false, 0⟩)], next := 1 }, {}) :=
+    ⟨PendingC.of_settled rfl (settled_nil _ _ _), rfl, inverse_nil, fun _ => rfl⟩
+  have hst : StaleAt cxEnv 10 (runH 10 [(cxEnv, .api (.loadOwned ⟨0, "x"⟩)), (cxEnv, .hotReload)]
+      ({ map := [(⟨0, "x"⟩, ⟨.int 99, true, 0, false, 0⟩)], next := 1 }, {})) ⟨0, "x"⟩ := staleAt_of_check (by decide)
+  exact ⟨cxEnv, 10, _, ⟨0, "x"⟩, cxEnv_steady, hinv, ⟨by decide, by decide⟩, noProbedKeyFilled_nil _ _,
+    noLivePendingKeyFilled_of_check (by decide), fun h => absurd (ownedAgrees_check_of h) (by decide), hst, hst.not_settled⟩
+
+/-- **`NoProbedKeyFilled` is necessary for `load_owned` too** (for the keys it caches on the way): `load r`
+(it probes `x`, finds nothing, returns `1`), `hot_reload()`: everything is settled. `load_owned w`: a clean
+owned load of a key that is not cached — whose loader loads `x`: it fills the key `r` probed. Re-evaluating
+`r` returns `2` now; `r` holds `1`. -/
+theorem C05_load_owned_false_fill :
+    ∃ (env : Env) (fuel : Nat) (x : St × RSt) (key : Key),
+      env.Steady ∧ SInvC env fuel x ∧ CleanLoadOwned env fuel x.1 key ∧ OwnedAgrees env fuel x.1 key ∧
+      NoLivePendingKeyFilled x.1 (step env fuel x.1 (.loadOwned key)).1 ∧
+      ¬ NoProbedKeyFilled x.1 (step env fuel x.1 (.loadOwned key)).1 x.2.graph ∧
+      StaleAt env fuel (runH fuel [(env, .api (.loadOwned key)), (env, .hotReload)] x) kr ∧
+      ¬ Settled env fuel (runH fuel [(env, .api (.loadOwned key)), (env, .hotReload)] x).1
+          (runH fuel [(env, .api (.loadOwned key)), (env, .hotReload)] x).2.graph := by
+  have hr : HistP (StepOKO lwEnv 10) lwEnv 10 [(lwEnv, .api (.load kr)), (lwEnv, .hotReload)] ({}, {}) :=
+    .cons _ _ _ (StepOKC.load (loadOKC_of_check (by decide))).toO
+      (.cons _ _ _ (StepOK.of_idle rfl (by decide)).toC.toO (.nil _))
+  have hinv := (histO_settled lwEnv_steady hr (SInvC.init lwEnv 10)).1
+  have hst : StaleAt lwEnv 10 (runH 10 [(lwEnv, .api (.loadOwned ⟨0, "w"⟩)), (lwEnv, .hotReload)]
+      (runH 10 [(lwEnv, .api (.load kr)), (lwEnv, .hotReload)] ({}, {}))) kr := staleAt_of_check (by decide)
+  refine ⟨lwEnv, 10, runH 10 [(lwEnv, .api (.load kr)), (lwEnv, .hotReload)] ({}, {}), ⟨0, "w"⟩, lwEnv_steady, hinv,
+    ⟨by decide, by decide⟩, ownedAgrees_of_check (by decide), noLivePendingKeyFilled_of_check (by decide), ?_, hst,
+    hst.not_settled⟩
+  intro hfill
+  have hh : HistP (StepOKO lwEnv 10) lwEnv 10 [(lwEnv, .api (.loadOwned ⟨0, "w"⟩)), (lwEnv, .hotReload)]
+      (runH 10 [(lwEnv, .api (.load kr)), (lwEnv, .hotReload)] ({}, {})) :=
+    .cons _ _ _ (StepOKO.loadOwned ⟨⟨by decide, by decide⟩, ownedAgrees_of_check (by decide), hfill,
+        noLivePendingKeyFilled_of_check (by decide)⟩)
+      (.cons _ _ _ (StepOK.of_idle rfl (by decide)).toC.toO (.nil _))
+  exact hst.not_settled
+    ((histO_settled lwEnv_steady hh hinv).2 [(lwEnv, .api (.loadOwned ⟨0, "w"⟩))] .hotReload [] rfl rfl).1
+
+/-- **A `load_owned` nested in a loader is outside `Settled` by definition**: re-evaluating a loader that
+starts with `load_owned` is never a tracked hit-only run (`hitRun` rejects `.loadOwned`: the parent records
+`asset key`, but the value comes from re-running the child's loader, not from the cache) — so such an asset,
+once registered and cached with a dynamic cell, is not settled, whatever the history. -/
+theorem C05_nested_load_owned_never_settled (env : Env) (fuel : Nat) (s : St) (g : Graph) (key k0 : Key)
+    (k : Except LErr Val → Prog) (node : GNode) (c : Cell)
+    (hprog : (env.types key.ty).prog key.id = .loadOwned k0 k)
+    (hg : g.get (.asset key) = some node) (ht : node.typed = true) (hc : s.lookup key = some c) (hd : c.dyn = true) :
+    reloadHit env (fuel + 1) s key = false ∧ ¬ Settled env (fuel + 1) s g := by
+  have h : reloadHit env (fuel + 1) s key = false := by
+    unfold reloadHit
+    rw [hprog]
+    rfl
+  refine ⟨h, fun hs => ?_⟩
+  have := (hs key node c hg ht hc hd).hit
+  rw [h] at this
+  cases this
+
+/-- … concretely: `load o` (the loader of `o` calls `load_owned x`) returns a handle, `o` is cached and
+registered with the dependency `x`; it is not a clean load, and after `hot_reload()` `o` is not settled. -/
+theorem C05_nested_load_owned_example :
+    (step lwEnv 10 {} (.load ⟨0, "o"⟩)).2 = .handle 0 (.int 4) ∧
+    ¬ CleanLoad lwEnv 10 {} ⟨0, "o"⟩ ∧
+    (runH 10 [(lwEnv, .api (.load ⟨0, "o"⟩)), (lwEnv, .hotReload)] ({}, {})).1.lookup kx = none ∧
+    ((runH 10 [(lwEnv, .api (.load ⟨0, "o"⟩)), (lwEnv, .hotReload)] ({}, {})).2.graph.get (.asset ⟨0, "o"⟩)).map (·.deps) =
+      some [.asset kx] ∧
+    ¬ Settled lwEnv 10 (runH 10 [(lwEnv, .api (.load ⟨0, "o"⟩)), (lwEnv, .hotReload)] ({}, {})).1
+        (runH 10 [(lwEnv, .api (.load ⟨0, "o"⟩)), (lwEnv, .hotReload)] ({}, {})).2.graph :=
+  ⟨by decide, by decide, by decide, by decide,
+   not_settled_of_miss (x := runH 10 [(lwEnv, .api (.load ⟨0, "o"⟩)), (lwEnv, .hotReload)] ({}, {})) (k := ⟨0, "o"⟩)
+     (by decide)⟩
 
 end AmVerif.Props.C05
